@@ -280,6 +280,15 @@ def compare(ctx, cases, answers):
                 c['disagrees'] = True
                 ctx.tie_broken('correspondence:goto',
                                short({'source': c['src'], 'occ': occs[u], 'jedi': impl, 'model': model}, 1500))
+        failed_uses = {(f[1]['line'], f[1]['column']) for f in c['fails']}
+        for u in c['judged']:
+            cov = a['covered'][u]
+            ctx.count('covered', (c['src'], u), nontrivial=bool(cov), bucket='covered' if cov else 'outside-hypothesis')
+            if cov and (occs[u]['line'], occs[u]['col']) in failed_uses and \
+                    not any(f[1]['shape'] == 'straight-line' for f in c['fails']):
+                # the theorem says this cannot happen when model = code: treat as a broken tie
+                ctx.tie_broken('theorem-vs-implementation:goto_same_var_partial',
+                               short({'source': c['src'], 'use': occs[u]}, 800))
         for u, toks in c['seen'].items():
             u = int(u)
             for t in toks:
